@@ -426,7 +426,10 @@ def translate_method(env, cls_name, fn, arg_types, ret_ty, coqname=None, typed_o
     for a, t in zip(args[1:], arg_types):
         loc[a] = (a, t)
     coqname = coqname or f"{cls_name}_{fn.name.strip('_') if fn.name.startswith('__') else fn.name}"
-    body = tr.body(fn.body, loc, ret_ty, typed_other)
+    # N7 + N8 only (an `else` after a returning branch; a guard on `A or B` = the guards on A and on B): the unmerged guard
+    # sequence is the form /repo uses, so the merged forms give the same text.  Locals stay (`let`s), annotations stay.
+    nfn = norm_function(fn, annotations=False, guards=False, accumulate=False, single_use=False, helpers=False, split_or=True)
+    body = tr.body(nfn.body, loc, ret_ty, typed_other)
     env.methods[(cls_name, fn.name)] = (coqname, arg_types, ret_ty)
     params = f"(self : {cls_name})" + "".join(f" ({a} : {coq_type(t)})" for a, t in zip(args[1:], arg_types))
     return f"Definition {coqname} {params} : {coq_type(ret_ty)} :=\n  {body}.\n"
@@ -478,6 +481,9 @@ def trivially_pure(e):
         return isinstance(e.ctx, ast.Load) and trivially_pure(e.value)
     if isinstance(e, ast.Call) and isinstance(e.func, ast.Name) and e.func.id == 'super' and not e.args and not e.keywords:
         return True
+    if isinstance(e, (ast.List, ast.Tuple)) and isinstance(e.ctx, ast.Load):
+        # a display of trivially pure items builds a fresh object: no effect, and nothing evaluated in between can reach it
+        return all(not isinstance(x, ast.Starred) and trivially_pure(x) for x in e.elts)
     return False
 
 
@@ -783,6 +789,21 @@ def _append_of(s, r):
             and s.value.func.attr == 'append' and isinstance(s.value.func.value, ast.Name) and s.value.func.value.id == r
             and len(s.value.args) == 1 and not s.value.keywords and not isinstance(s.value.args[0], ast.Starred)):
         return s.value.args[0]
+    e = append_one(s, r)
+    return e
+
+
+def append_one(s, r):
+    """`r.append(e)` or `r += [e]` as a statement -> e, else None.  The two are the same operation ONLY when r is a list (both
+    then append e to the same object in place; for a tuple or an array `+=` means something else), so callers use this only
+    where r is known to be bound to a list (N5: r was bound to `[]` and not mentioned since)."""
+    if (isinstance(s, ast.Expr) and isinstance(s.value, ast.Call) and isinstance(s.value.func, ast.Attribute)
+            and s.value.func.attr == 'append' and isinstance(s.value.func.value, ast.Name) and s.value.func.value.id == r
+            and len(s.value.args) == 1 and not s.value.keywords and not isinstance(s.value.args[0], ast.Starred)):
+        return s.value.args[0]
+    if (isinstance(s, ast.AugAssign) and isinstance(s.op, ast.Add) and isinstance(s.target, ast.Name) and s.target.id == r
+            and isinstance(s.value, ast.List) and len(s.value.elts) == 1 and not isinstance(s.value.elts[0], ast.Starred)):
+        return s.value.elts[0]
     return None
 
 
@@ -1025,7 +1046,144 @@ def norm_inline_helpers(fn, module, cls=None, limit=12):
 
 
 # ---------------------------------------------------------------------------------------------------------------------
-def norm_function(fn, module=None, cls=None, annotations=True, guards=True, accumulate=True, single_use=True, helpers=True):
+# (N7) `else` after a branch that always leaves
+#     if C: B            (B always returns/raises)         if C: B
+#     else: E                                        ==    E
+# When C holds, B runs and leaves in both forms; otherwise E runs, followed by whatever follows.  Applied repeatedly this
+# turns an `if/elif/.../else` chain whose branches all return into the sequence of guards it abbreviates.  An `if` whose body
+# can fall through (e.g. the enum chains that assign a variable) is left alone.
+def norm_flatten_else(block):
+    i = 0
+    while i < len(block):
+        s = block[i]
+        if isinstance(s, ast.If) and s.orelse and always_exits(s.body):
+            tail, s.orelse = s.orelse, []
+            block[i + 1:i + 1] = tail
+        for b in sub_blocks(s):
+            norm_flatten_else(b)
+        i += 1
+    return block
+
+
+# (N8) a guard on a disjunction is the sequence of guards on the disjuncts
+#     if A or B: S       (no else; S always returns/raises)   ==   if A: S
+#                                                                  if B: S
+# `A or B` evaluates A, and B only when A is false; so does the sequence (S leaves when A holds).  S is copied.  This is the
+# direction in which /repo writes its guards, so merged guards get the text of the unmerged ones.
+def norm_split_or(block):
+    import copy
+    i = 0
+    while i < len(block):
+        s = block[i]
+        if (isinstance(s, ast.If) and not s.orelse and isinstance(s.test, ast.BoolOp) and isinstance(s.test.op, ast.Or)
+                and always_exits(s.body)):
+            block[i:i + 1] = [ast.copy_location(ast.If(test=v, body=copy.deepcopy(s.body), orelse=[]), s) for v in s.test.values]
+            continue
+        for b in sub_blocks(s):
+            norm_split_or(b)
+        i += 1
+    return block
+
+
+# (N9) a number computed once and used once further down (e.g. hoisted out of a loop)  ->  substituted
+#     x = E                      (E: + - * and unary minus over numeric constants and names)
+#     ... S[x] ...               (one use, anywhere inside a LATER statement of the same block, also inside its loops / branches)
+# Conditions: every name in E is bound exactly once in the function, by a parameter or an assignment annotated `int` / `float`
+# (numbers are immutable, so the value E had at the definition can only change by rebinding one of its names); none of these
+# names is stored to between the definition and the end of the statement containing the use (any execution from the
+# definition to the use stays inside these statements, and re-entering them from a surrounding loop passes the definition
+# again); `x` occurs exactly twice in the function (this store, that load) and is bound in no other way; the use is not
+# inside a lambda / nested def / comprehension.  E cannot raise (no division, no power, no call) and has no effect, so it may
+# be evaluated later, conditionally and repeatedly.  Must run before N1 (it reads the annotations).
+_NUM_ANN = ('int', 'float')
+
+
+def _numeric_arith(e):
+    if isinstance(e, ast.Constant):
+        return isinstance(e.value, (int, float)) and not isinstance(e.value, bool)
+    if isinstance(e, ast.Name):
+        return isinstance(e.ctx, ast.Load)
+    if isinstance(e, ast.BinOp) and isinstance(e.op, (ast.Add, ast.Sub, ast.Mult)):
+        return _numeric_arith(e.left) and _numeric_arith(e.right)
+    if isinstance(e, ast.UnaryOp) and isinstance(e.op, ast.USub):
+        return _numeric_arith(e.operand)
+    return False
+
+
+def _numeric_name(fn, n):
+    """`n` is bound exactly once in fn, as a parameter or by an annotated assignment, with annotation int / float"""
+    stores = [x for x in _occurrences(fn, n) if isinstance(x.ctx, (ast.Store, ast.Del))]
+    params = [a for a in ast.walk(fn) if isinstance(a, ast.arg) and a.arg == n]
+    own = fn.args.posonlyargs + fn.args.args + fn.args.kwonlyargs
+    if len(params) == 1 and not stores and params[0] in own:
+        a = params[0].annotation
+        return isinstance(a, ast.Name) and a.id in _NUM_ANN
+    if params or len(stores) != 1:
+        return False
+    for x in ast.walk(fn):
+        if isinstance(x, ast.AnnAssign) and x.target is stores[0] and x.value is not None:
+            return isinstance(x.annotation, ast.Name) and x.annotation.id in _NUM_ANN and not _other_binders(fn, n)
+    return False
+
+
+def _under_opaque(root, target):
+    """is `target` (a node inside `root`) under a lambda / nested def / comprehension?"""
+    def go(n, opaque):
+        if n is target:
+            return opaque
+        o = opaque or isinstance(n, (ast.Lambda, ast.FunctionDef, ast.AsyncFunctionDef, ast.ClassDef, ast.ListComp, ast.SetComp,
+                                     ast.DictComp, ast.GeneratorExp))
+        for c in ast.iter_child_nodes(n):
+            r = go(c, o)
+            if r is not None:
+                return r
+        return None
+    return go(root, False)
+
+
+def norm_numeric_locals(fn):
+    changed = True
+    while changed:
+        changed = False
+        for block in all_blocks(fn):
+            for i, s in enumerate(block):
+                d = _local_def(s, True)
+                if d is None:
+                    continue
+                x, value = d
+                if not _numeric_arith(value) or isinstance(value, (ast.Name, ast.Constant)) or mentions(value, x):
+                    continue
+                occ = _occurrences(fn, x)
+                loads = [o for o in occ if isinstance(o.ctx, ast.Load)]
+                if len(occ) != 2 or len(loads) != 1 or _other_binders(fn, x):
+                    continue
+                js = [j for j in range(i + 1, len(block)) if any(o is loads[0] for o in ast.walk(block[j]))]
+                if len(js) != 1:
+                    continue
+                j = js[0]
+                names = {n.id for n in ast.walk(value) if isinstance(n, ast.Name)}
+                if not all(_numeric_name(fn, n) for n in names):
+                    continue
+                between = block[i + 1:j + 1]
+                if any(isinstance(o, ast.Name) and o.id in names and not isinstance(o.ctx, ast.Load) for b in between for o in ast.walk(b)):
+                    continue
+                if _under_opaque(block[j], loads[0]) is not False:
+                    continue
+                r = _ReplaceName(x, value)
+                block[j] = r.visit(block[j])
+                if r.count != 1:
+                    raise TranslateError(f"normalisation: internal error substituting {x}")
+                del block[i]
+                changed = True
+                break
+            if changed:
+                break
+    return fn
+
+
+# ---------------------------------------------------------------------------------------------------------------------
+def norm_function(fn, module=None, cls=None, annotations=True, guards=True, accumulate=True, single_use=True, helpers=True,
+                  flatten_else=True, split_or=False, numeric_locals=False):
     """Deep copy of `fn` in normal form.  Each generator chooses the passes that are neutral for what it emits (e.g. the
     kernel translator keeps annotations, which it reads as types, and keeps single-use locals, which it emits as `let`)."""
     import copy
@@ -1033,6 +1191,12 @@ def norm_function(fn, module=None, cls=None, annotations=True, guards=True, accu
         fn = copy.deepcopy(fn)
         if helpers and module is not None:
             norm_inline_helpers(fn, module, cls)
+        if flatten_else:
+            norm_flatten_else(fn.body)
+        if numeric_locals:
+            norm_numeric_locals(fn)
+        if single_use:
+            norm_single_use(fn)             # first: a temporary inside a loop body may hide an accumulate loop
         if accumulate:
             norm_accumulate(fn)
         if annotations:
@@ -1041,6 +1205,8 @@ def norm_function(fn, module=None, cls=None, annotations=True, guards=True, accu
             norm_single_use(fn)
         if guards:
             norm_guards(fn.body)
+        if split_or:
+            norm_split_or(fn.body)
         ast.fix_missing_locations(fn)
         return fn
     except TranslateError:
